@@ -1031,14 +1031,14 @@ theorem blockHash_v0132_inj (net : Net) (b b' : Block) (sd sd' : StateDiff) (ov 
       obtain ⟨ys, hy⟩ := post07_isPed _ _ _ h'
       simp at hy
 
-theorem verifyTransactions_mem (c : Term) (txs : List Tx) (ver : Bytes) (v : Ver) (hp : parseVersion ver = some v)
-    (hge : v.lt v0_11_0 = false) (h : verifyTransactions c txs ver = true) (t : Tx) (ht : t ∈ txs) :
-    ∃ x, txHash c t = some x ∧ t.hash = some x := by
+theorem verifyTransactions_mem (chain : Term) (txs : List Tx) (ver : Bytes) (v : Ver) (hp : parseVersion ver = some v)
+    (hge : v.lt v0_11_0 = false) (h : verifyTransactions chain txs ver = true) (t : Tx) (ht : t ∈ txs) :
+    ∃ x, txHash chain t = some x ∧ t.hash = some x := by
   unfold verifyTransactions at h
   simp only [hp, hge, Bool.false_eq_true, if_false, List.all_eq_true] at h
   have := h t ht
-  cases h1 : txHash c t <;> cases h2 : t.hash <;> simp [h1, h2] at this
-  exact ⟨_, rfl, by rw [this]⟩
+  cases h1 : txHash chain t <;> cases h2 : t.hash <;> simp [h1, h2] at this
+  exact ⟨_, rfl, by rw [this.2]⟩
 
 /-- every hash-verified transaction of a verified block carries the encoding of its committed view -/
 theorem verified_tx_hash (net : Net) (B : Bundle) (hv : Verified net B)
@@ -1083,7 +1083,7 @@ theorem offer_preserves {σ : Type} (sem : StateSem σ) (net : Net) (st0 : σ) (
 theorem run_preserves {σ : Type} (sem : StateSem σ) (net : Net) (st0 : σ) :
     ∀ (Bs : List Bundle) (c : Chain σ), ChainOK sem net st0 c.head c.st c.stored →
       ChainOK sem net st0 (run sem net c Bs).head (run sem net c Bs).st (run sem net c Bs).stored
-  | [], c, h => h
+  | [], _, h => h
   | B :: rest, c, h => run_preserves sem net st0 rest _ (offer_preserves sem net st0 c B h)
 
 
